@@ -15,7 +15,7 @@
        both signs, or NewHashmap with unsorted keys, silently produced a
        dictionary with different keys. *)
 From Coq Require Import List NArith ZArith Arith Lia Bool Sorted.
-From Tongo Require Import Lib.Bits Lib.Res Spec.Dict Model.Hashmap Model.HashmapHist.
+From Tongo Require Import Lib.Bits Lib.Res Spec.Dict Model.Hashmap Model.HashmapHist Model.HashmapAug.
 Import ListNotations.
 
 (** Hashmap.MarshalTLB / HashmapE.MarshalTLB before the repair: no sort *)
@@ -144,3 +144,24 @@ Lemma decode_conditional_design_refuted :
   encode_e venc_bit 8 (fst (hdecode vdec_bit true 8 w_d1 empty)) = Ok empty /\
   exists c, encode_e venc_bit 8 (fst (hdecode_conditional vdec_bit 8 w_d1 empty)) = Ok c /\ c <> empty.
 Proof. cbn zeta. repeat split; try reflexivity. vm_compute. eexists. split; [reflexivity|discriminate]. Qed.
+
+(** ** 5. seeded change C05-r4m2 (never shipped): ConfigParams.CloneKeepingSubsetOfKeys
+    filtering "without allocating" into params.Config.keys[:0] / values[:0].  The
+    clone is right, but the kept pairs are written over the front of the SOURCE's
+    slices: Uint8 keys 0,1,2,4,5 and a clone keeping {4,5}: the source then lists
+    4,5,2,4,5 — keys 0 and 1 are gone, 4 and 5 are there twice. *)
+Definition w_c : list (bits * bool) :=
+  [(bits_of 8 0, true); (bits_of 8 1, false); (bits_of 8 2, true); (bits_of 8 4, false); (bits_of 8 5, true)].
+
+Lemma clone_in_place_design_refuted :
+  let keys := [bits_of 8 4; bits_of 8 5] in
+  clone_subset keys w_c = [(bits_of 8 4, false); (bits_of 8 5, true)] /\
+  clone_in_place_source keys w_c =
+    [(bits_of 8 4, false); (bits_of 8 5, true); (bits_of 8 2, true); (bits_of 8 4, false); (bits_of 8 5, true)] /\
+  get bits_eqb (bits_of 8 0) (clone_in_place_source keys w_c) = None /\
+  get bits_eqb (bits_of 8 0) w_c = Some true /\
+  ~ NoDup (map fst (clone_in_place_source keys w_c)).
+Proof.
+  cbn zeta. repeat split; try reflexivity.
+  intros H. vm_compute in H. inversion H as [|? ? Hn _]. apply Hn. right; right; left. reflexivity.
+Qed.
